@@ -17,4 +17,8 @@ U10 == {PS(1, 1, {1, 2}), SER(1, 1, "succeeded"), SER(1, 2, "succeeded"), PE(1),
 \* a standalone run (no launch) next to a launched run, with an orphan SER and a run of an unknown spec
 U9 == {PS(1, 0, {1, 2}), SER(1, 1, "succeeded"), SER(1, 102, "succeeded"), PE(1),
        PS(2, 1, {}), SER(2, 100, "succeeded"), PE(2), LS(1), LE(1)}
+\* a retried launch: launch 1 = (id, attempt 1) crashed before its run_space_end, launch 2 = (SAME id, attempt 2) completed
+UA7 == {LS(1), PS(1, 1, {1}), PE(1), LS(2), PS(2, 2, {1}), PE(2), LE(2)}
+\* one launch (same id, same attempt) executed twice: two runs, both with run-space index 0, the launch start seen twice
+UD6 == {LS(1), PS(1, 1, {1}), PE(1), PS(2, 1, {1}), PE(2), LE(1)}
 =============================================================================
